@@ -157,6 +157,9 @@ func main() {
 				}
 			}()
 			chk(run)
+			if id != "C01" && id != "C02" {
+				run.RequireResolvedStores()
+			}
 		}()
 		if doSelf {
 			selfTest(run, *repo, *verif)
